@@ -15,18 +15,15 @@ use p3_recursion::{
     AggregationPrepCache, BatchOnly, FriRecursionBackend, NextLayerPrepCache, Poseidon2Config, ProveNextLayerParams, RecursionInput, RecursionOutput,
     build_and_prove_aggregation_layer, build_next_layer_circuit, build_next_layer_prep, prove_next_layer,
 };
-use p3_test_utils::koala_bear_params::{Challenge, F};
 use serde_json::{Value, json};
 
 use crate::cdigest::circuit_digest;
 use crate::core::pool::observe;
 use crate::core::prng::{Rng, mix};
 use crate::core::report::{Ctx, RunOut, Spec};
-use crate::layers::{Cfg, PairAir};
 use crate::rec::FriShape;
 
-const D: usize = 4;
-type Backend = p3_recursion::FriRecursionBackendForExt<4, 16, 8, Poseidon2Config>;
+use crate::layers::PairAir;
 
 #[derive(Clone, Debug, serde::Serialize, serde::Deserialize, PartialEq, Eq)]
 pub enum CacheMode {
@@ -50,57 +47,9 @@ pub struct HistorySpec {
     pub base: Vec<(String, usize)>,
     pub steps: Vec<Step>,
     pub seed: u64,
-}
-
-enum Item {
-    Fib(p3_uni_stark::Proof<Cfg>, Vec<F>),
-    Pair(p3_uni_stark::Proof<Cfg>, PairAir),
-    Batch(RecursionOutput<Cfg>),
-}
-
-fn backend() -> Backend {
-    FriRecursionBackend::<16, 8, _>::new(Poseidon2Config::KOALA_BEAR_D4_W16).for_extension_degree::<4>()
-}
-
-fn params(fri: &FriShape) -> ProveNextLayerParams {
-    ProveNextLayerParams { table_packing: TablePacking::new(1, 4).with_min_trace_height(fri.min_height().max(1 << (fri.log_final_poly_len + 1))), constraint_profile: p3_circuit_prover::ConstraintProfile::Standard }
-}
-
-fn native_verify(cfg: &Cfg, p: &ProveNextLayerParams, out: &RecursionOutput<Cfg>) -> Result<(), String> {
-    match observe(|| {
-        let mut prover = BatchStarkProver::new(cfg.clone()).with_table_packing(p.table_packing.clone());
-        prover.register_poseidon2_table::<4>(Poseidon2Config::KOALA_BEAR_D4_W16);
-        prover.register_recompose_table::<4>(false);
-        prover.verify_all_tables::<Challenge>(&out.0).map_err(|e| format!("{e:?}"))
-    }) {
-        Ok(r) => r,
-        Err(p) => Err(format!("panic: {p}")),
-    }
-}
-
-/// Outcome of one (possibly cached) call.
-enum CallOut {
-    Ok(RecursionOutput<Cfg>),
-    Err(String),
-    Panic(String),
-}
-
-struct NextSlot {
-    cache: NextLayerPrepCache<Cfg>,
-    for_circuit: u64,
-}
-
-fn with_input<R>(item: &Item, f: &mut dyn FnMut(InputRef<'_>) -> R) -> R {
-    match item {
-        Item::Fib(p, pis) => f(InputRef::Fib(p, pis)),
-        Item::Pair(p, a) => f(InputRef::Pair(p, a)),
-        Item::Batch(o) => f(InputRef::Batch(o)),
-    }
-}
-enum InputRef<'a> {
-    Fib(&'a p3_uni_stark::Proof<Cfg>, &'a Vec<F>),
-    Pair(&'a p3_uni_stark::Proof<Cfg>, &'a PairAir),
-    Batch(&'a RecursionOutput<Cfg>),
+    /// "KB4" (KoalaBear, degree-4 backend) or "GL2" (Goldilocks, degree-2 backend)
+    #[serde(default)]
+    pub universe: String,
 }
 
 macro_rules! dispatch_input {
@@ -124,99 +73,6 @@ macro_rules! dispatch_input {
             }
         }
     };
-}
-
-/// NEXT step. Returns (uncached twin outcome, cached outcome if a cache was involved, was the offered cache stale?, circuit digest)
-fn do_next(cfg: &Cfg, p: &ProveNextLayerParams, item: &Item, mode: &CacheMode, slots: &mut Vec<Option<NextSlot>>) -> (CallOut, Option<CallOut>, bool, u64, (u32, usize)) {
-    let be = backend();
-    with_input(item, &mut |r| {
-        dispatch_input!(r, |input, A| {
-            let built = observe(|| build_next_layer_circuit::<Cfg, A, _, D>(&input, cfg, &be));
-            let (circuit, vr): (Circuit<Challenge>, _) = match built {
-                Ok(Ok(x)) => x,
-                Ok(Err(e)) => return (CallOut::Err(format!("build: {e:?}")), None, false, 0, (0, 0)),
-                Err(pm) => return (CallOut::Panic(format!("build: {pm}")), None, false, 0, (0, 0)),
-            };
-            let dig = circuit_digest::<F, Challenge>(&circuit);
-            let counters = (circuit.witness_count, circuit.ops.len());
-            let call = |prep: Option<&NextLayerPrepCache<Cfg>>| -> CallOut {
-                match observe(|| prove_next_layer::<Cfg, A, _, D>(&input, &circuit, &vr, cfg, &be, p, prep)) {
-                    Ok(Ok(o)) => CallOut::Ok(o),
-                    Ok(Err(e)) => CallOut::Err(format!("{e:?}")),
-                    Err(pm) => CallOut::Panic(pm),
-                }
-            };
-            let twin = call(None);
-            let (cached, stale) = match mode {
-                CacheMode::None => (None, false),
-                CacheMode::Build(s) => {
-                    let prep = observe(|| build_next_layer_prep::<Cfg, A, _, D>(&circuit, cfg, &be, p));
-                    match prep {
-                        Ok(Ok(c)) => {
-                            while slots.len() <= *s {
-                                slots.push(None);
-                            }
-                            slots[*s] = Some(NextSlot { cache: c, for_circuit: dig });
-                            (Some(call(slots[*s].as_ref().map(|x| &x.cache))), false)
-                        }
-                        Ok(Err(e)) => (Some(CallOut::Err(format!("prep: {e:?}"))), false),
-                        Err(pm) => (Some(CallOut::Panic(format!("prep: {pm}"))), false),
-                    }
-                }
-                CacheMode::Reuse(s) => match slots.get(*s).and_then(|x| x.as_ref()) {
-                    Some(slot) => (Some(call(Some(&slot.cache))), slot.for_circuit != dig),
-                    None => (None, false),
-                },
-            };
-            (twin, cached, stale, dig, counters)
-        })
-    })
-}
-
-struct AggSlot {
-    cache: Option<AggregationPrepCache<Cfg>>,
-    for_circuit: Option<(usize, usize)>,
-}
-
-fn do_agg(cfg: &Cfg, p: &ProveNextLayerParams, l: &Item, r: &Item, mode: &CacheMode, slots: &mut Vec<AggSlot>, pair_id: (usize, usize)) -> (CallOut, Option<CallOut>, bool) {
-    let be = backend();
-    with_input(l, &mut |lr| {
-        dispatch_input!(lr, |left, A1| {
-            with_input(r, &mut |rr| {
-                dispatch_input!(rr, |right, A2| {
-                    let mut call = |cache: Option<&mut Option<AggregationPrepCache<Cfg>>>| -> CallOut {
-                        match observe(|| build_and_prove_aggregation_layer::<Cfg, A1, A2, _, D>(&left, &right, cfg, &be, p, cache)) {
-                            Ok(Ok(o)) => CallOut::Ok(o),
-                            Ok(Err(e)) => CallOut::Err(format!("{e:?}")),
-                            Err(pm) => CallOut::Panic(pm),
-                        }
-                    };
-                    let twin = call(None);
-                    match mode {
-                        CacheMode::None => (twin, None, false),
-                        CacheMode::Build(s) | CacheMode::Reuse(s) => {
-                            while slots.len() <= *s {
-                                slots.push(AggSlot { cache: None, for_circuit: None });
-                            }
-                            if matches!(mode, CacheMode::Build(_)) {
-                                slots[*s] = AggSlot { cache: None, for_circuit: None };
-                            }
-                            let stale = slots[*s].for_circuit.is_some_and(|x| x != pair_id);
-                            let had = slots[*s].cache.is_some();
-                            let before = slots[*s].cache.as_ref().map(|c| Rc::as_ptr(&c.circuit_prover_data));
-                            let c = call(Some(&mut slots[*s].cache));
-                            let after = slots[*s].cache.as_ref().map(|c| Rc::as_ptr(&c.circuit_prover_data));
-                            if after.is_some() && after != before {
-                                // the call (re)populated the slot: from now on it belongs to this pair
-                                slots[*s].for_circuit = Some(pair_id);
-                            }
-                            (twin, Some(c), stale && had)
-                        }
-                    }
-                })
-            })
-        })
-    })
 }
 
 pub fn gen_history(rng: &mut Rng, tier_steps: usize) -> HistorySpec {
@@ -262,159 +118,328 @@ pub fn gen_history(rng: &mut Rng, tier_steps: usize) -> HistorySpec {
         }
         _ => {}
     }
-    HistorySpec { fri, base, steps, seed: rng.next_u64() }
+    HistorySpec { fri, base, steps, seed: rng.next_u64(), universe: String::new() }
 }
 
-/// Execute a history; violations are pushed into `out`. `only_step` restricts the oracle to one step (replay).
-pub fn run_history(h: &HistorySpec, out: &mut RunOut) {
-    let cfg = Cfg::new(h.fri);
-    let p = params(&h.fri);
-    let mut pool: Vec<Item> = Vec::new();
-    for (kind, log_n) in &h.base {
-        let item = observe(|| match kind.as_str() {
-            "fib" => {
-                let n = 1usize << log_n;
-                let trace = generate_trace_rows::<F>(0, 1, n);
-                let (mut a, mut b) = (F::ZERO, F::ONE);
-                for _ in 1..n {
-                    let c = a + b;
-                    a = b;
-                    b = c;
+macro_rules! c17_universe {
+    ($modname:ident, $layers:ident, $params:ident, $d:expr, $w:expr, $r:expr, $p2cfg:expr) => {
+        pub mod $modname {
+            use p3_test_utils::$params::{Challenge, F};
+
+            use super::*;
+            use crate::layers::$layers::Cfg;
+
+            const D: usize = $d;
+            type Backend = p3_recursion::FriRecursionBackendForExt<{ $d }, { $w }, { $r }, Poseidon2Config>;
+
+            enum Item {
+                Fib(p3_uni_stark::Proof<Cfg>, Vec<F>),
+                Pair(p3_uni_stark::Proof<Cfg>, PairAir),
+                Batch(RecursionOutput<Cfg>),
+            }
+
+            fn backend() -> Backend {
+                FriRecursionBackend::<{ $w }, { $r }, _>::new($p2cfg).for_extension_degree::<{ $d }>()
+            }
+
+            fn params(fri: &FriShape) -> ProveNextLayerParams {
+                ProveNextLayerParams { table_packing: TablePacking::new(1, 4).with_min_trace_height(fri.min_height().max(1 << (fri.log_final_poly_len + 1))), constraint_profile: p3_circuit_prover::ConstraintProfile::Standard }
+            }
+
+            fn native_verify(cfg: &Cfg, p: &ProveNextLayerParams, out: &RecursionOutput<Cfg>) -> Result<(), String> {
+                match observe(|| {
+                    let mut prover = BatchStarkProver::new(cfg.clone()).with_table_packing(p.table_packing.clone());
+                    prover.register_poseidon2_table::<{ $d }>($p2cfg);
+                    prover.register_recompose_table::<{ $d }>(false);
+                    prover.verify_all_tables::<Challenge>(&out.0).map_err(|e| format!("{e:?}"))
+                }) {
+                    Ok(r) => r,
+                    Err(p) => Err(format!("panic: {p}")),
                 }
-                let pis = vec![F::ZERO, F::ONE, b];
-                let proof = p3_uni_stark::prove(&cfg, &FibonacciAir {}, trace, &pis);
-                Item::Fib(proof, pis)
             }
-            k => {
-                let air = PairAir { variant: if k == "pair0" { 0 } else { 1 } };
-                let proof = p3_uni_stark::prove(&cfg, &air, air.trace(*log_n, h.seed), &[]);
-                Item::Pair(proof, air)
+
+            /// Outcome of one (possibly cached) call.
+            enum CallOut {
+                Ok(RecursionOutput<Cfg>),
+                Err(String),
+                Panic(String),
             }
-        });
-        match item {
-            Ok(i) => pool.push(i),
-            Err(_) => {
-                out.count("base_proof_failed_history_skipped");
-                return;
+
+            struct NextSlot {
+                cache: NextLayerPrepCache<Cfg>,
+                for_circuit: u64,
             }
-        }
-    }
-    let mut next_slots: Vec<Option<NextSlot>> = Vec::new();
-    let mut agg_slots: Vec<AggSlot> = Vec::new();
-    let mut stale_seen = false;
-    for (si, step) in h.steps.iter().enumerate() {
-        out.evals += 1;
-        out.steps += 1;
-        let detail = json!({"history": h, "step": si});
-        let (twin, cached, stale, what, counters) = match step {
-            Step::Next(i, mode) => {
-                if *i >= pool.len() {
-                    continue;
+
+            fn with_input<R>(item: &Item, f: &mut dyn FnMut(InputRef<'_>) -> R) -> R {
+                match item {
+                    Item::Fib(p, pis) => f(InputRef::Fib(p, pis)),
+                    Item::Pair(p, a) => f(InputRef::Pair(p, a)),
+                    Item::Batch(o) => f(InputRef::Batch(o)),
                 }
-                let (t, c, s, _dig, counters) = do_next(&cfg, &p, &pool[*i], mode, &mut next_slots);
-                (t, c, s, "next", counters)
             }
-            Step::Agg(i, j, mode) => {
-                if *i >= pool.len() || *j >= pool.len() {
-                    continue;
-                }
-                let (t, c, s) = do_agg(&cfg, &p, &pool[*i], &pool[*j], mode, &mut agg_slots, (*i, *j));
-                (t, c, s, "agg", (0, 0))
+            enum InputRef<'a> {
+                Fib(&'a p3_uni_stark::Proof<Cfg>, &'a Vec<F>),
+                Pair(&'a p3_uni_stark::Proof<Cfg>, &'a PairAir),
+                Batch(&'a RecursionOutput<Cfg>),
             }
-        };
-        let _ = counters;
-        out.count(&format!("step_{what}"));
-        // uncached twin: must succeed and verify (chaining), whatever happened before
-        let twin_out = match twin {
-            CallOut::Ok(o) => match native_verify(&cfg, &p, &o) {
-                Ok(()) => Some(o),
-                Err(e) => {
-                    out.violate(format!("uncached_{what}_does_not_verify"), format!("step {si} ({step:?}): uncached layer proof rejected natively: {e}"), detail.clone());
-                    None
-                }
-            },
-            CallOut::Err(e) => {
-                out.violate(format!("uncached_{what}_failed:{}", e.split(|c: char| !c.is_alphanumeric()).find(|x| !x.is_empty()).unwrap_or("err")), format!("step {si} ({step:?}): uncached call failed: {}", e.chars().take(300).collect::<String>()), detail.clone());
-                None
-            }
-            CallOut::Panic(e) => {
-                out.violate(format!("uncached_{what}_panicked"), format!("step {si} ({step:?}): uncached call panicked: {}", e.chars().take(300).collect::<String>()), detail.clone());
-                None
-            }
-        };
-        if stale_seen && twin_out.is_some() {
-            out.count("progress_after_stale_offer");
-        }
-        // cached call vs twin
-        if let Some(c) = cached {
-            out.count(if stale { "cache_stale_offer" } else { "cache_valid_use" });
-            if stale {
-                stale_seen = true;
-            }
-            out.distinct.insert(crate::core::prng::fnv64(format!("{what}:{}:{stale}", match step { Step::Next(_, m) | Step::Agg(_, _, m) => format!("{m:?}").split('(').next().unwrap_or("").to_string() }).as_bytes()));
-            let kind = if stale { "stale" } else { "valid" };
-            match c {
-                CallOut::Ok(o) => match native_verify(&cfg, &p, &o) {
-                    Ok(()) => {
-                        out.count(&format!("{kind}_cache_output_verifies"));
-                        // "refused or recomputed": a proof made through a stale cache must carry the
-                        // verifying data of the circuit actually proven (= the uncached twin's)
-                        if let Some(t) = &twin_out {
-                            let commit = |x: &RecursionOutput<Cfg>| {
-                                let mut v = Vec::new();
-                                if let Some(g) = x.0.stark_common.preprocessed.as_ref() {
-                                    crate::tree::collect_numbers(&serde_json::to_value(&g.commitment).unwrap(), &mut v);
+
+            /// NEXT step. Returns (uncached twin outcome, cached outcome if a cache was involved, was the offered cache stale?, circuit digest)
+            fn do_next(cfg: &Cfg, p: &ProveNextLayerParams, item: &Item, mode: &CacheMode, slots: &mut Vec<Option<NextSlot>>) -> (CallOut, Option<CallOut>, bool, u64, (u32, usize)) {
+                let be = backend();
+                with_input(item, &mut |r| {
+                    dispatch_input!(r, |input, A| {
+                        let built = observe(|| build_next_layer_circuit::<Cfg, A, _, D>(&input, cfg, &be));
+                        let (circuit, vr): (Circuit<Challenge>, _) = match built {
+                            Ok(Ok(x)) => x,
+                            Ok(Err(e)) => return (CallOut::Err(format!("build: {e:?}")), None, false, 0, (0, 0)),
+                            Err(pm) => return (CallOut::Panic(format!("build: {pm}")), None, false, 0, (0, 0)),
+                        };
+                        let dig = circuit_digest::<F, Challenge>(&circuit);
+                        let counters = (circuit.witness_count, circuit.ops.len());
+                        let call = |prep: Option<&NextLayerPrepCache<Cfg>>| -> CallOut {
+                            match observe(|| prove_next_layer::<Cfg, A, _, D>(&input, &circuit, &vr, cfg, &be, p, prep)) {
+                                Ok(Ok(o)) => CallOut::Ok(o),
+                                Ok(Err(e)) => CallOut::Err(format!("{e:?}")),
+                                Err(pm) => CallOut::Panic(pm),
+                            }
+                        };
+                        let twin = call(None);
+                        let (cached, stale) = match mode {
+                            CacheMode::None => (None, false),
+                            CacheMode::Build(s) => {
+                                let prep = observe(|| build_next_layer_prep::<Cfg, A, _, D>(&circuit, cfg, &be, p));
+                                match prep {
+                                    Ok(Ok(c)) => {
+                                        while slots.len() <= *s {
+                                            slots.push(None);
+                                        }
+                                        slots[*s] = Some(NextSlot { cache: c, for_circuit: dig });
+                                        (Some(call(slots[*s].as_ref().map(|x| &x.cache))), false)
+                                    }
+                                    Ok(Err(e)) => (Some(CallOut::Err(format!("prep: {e:?}"))), false),
+                                    Err(pm) => (Some(CallOut::Panic(format!("prep: {pm}"))), false),
                                 }
-                                v
-                            };
-                            if commit(&o) != commit(t) {
-                                out.violate(
-                                    format!("{kind}_{what}_cache_used_silently"),
-                                    format!("step {si} ({step:?}): the call accepted a cache prepared for a different circuit: its proof verifies against the OTHER circuit's preprocessed commitment (neither refused nor recomputed)"),
-                                    detail.clone(),
-                                );
-                            } else if stale {
-                                out.count("stale_cache_recomputed");
+                            }
+                            CacheMode::Reuse(s) => match slots.get(*s).and_then(|x| x.as_ref()) {
+                                Some(slot) => (Some(call(Some(&slot.cache))), slot.for_circuit != dig),
+                                None => (None, false),
+                            },
+                        };
+                        (twin, cached, stale, dig, counters)
+                    })
+                })
+            }
+
+            struct AggSlot {
+                cache: Option<AggregationPrepCache<Cfg>>,
+                for_circuit: Option<(usize, usize)>,
+            }
+
+            fn do_agg(cfg: &Cfg, p: &ProveNextLayerParams, l: &Item, r: &Item, mode: &CacheMode, slots: &mut Vec<AggSlot>, pair_id: (usize, usize)) -> (CallOut, Option<CallOut>, bool) {
+                let be = backend();
+                with_input(l, &mut |lr| {
+                    dispatch_input!(lr, |left, A1| {
+                        with_input(r, &mut |rr| {
+                            dispatch_input!(rr, |right, A2| {
+                                let mut call = |cache: Option<&mut Option<AggregationPrepCache<Cfg>>>| -> CallOut {
+                                    match observe(|| build_and_prove_aggregation_layer::<Cfg, A1, A2, _, D>(&left, &right, cfg, &be, p, cache)) {
+                                        Ok(Ok(o)) => CallOut::Ok(o),
+                                        Ok(Err(e)) => CallOut::Err(format!("{e:?}")),
+                                        Err(pm) => CallOut::Panic(pm),
+                                    }
+                                };
+                                let twin = call(None);
+                                match mode {
+                                    CacheMode::None => (twin, None, false),
+                                    CacheMode::Build(s) | CacheMode::Reuse(s) => {
+                                        while slots.len() <= *s {
+                                            slots.push(AggSlot { cache: None, for_circuit: None });
+                                        }
+                                        if matches!(mode, CacheMode::Build(_)) {
+                                            slots[*s] = AggSlot { cache: None, for_circuit: None };
+                                        }
+                                        let stale = slots[*s].for_circuit.is_some_and(|x| x != pair_id);
+                                        let had = slots[*s].cache.is_some();
+                                        let before = slots[*s].cache.as_ref().map(|c| Rc::as_ptr(&c.circuit_prover_data));
+                                        let c = call(Some(&mut slots[*s].cache));
+                                        let after = slots[*s].cache.as_ref().map(|c| Rc::as_ptr(&c.circuit_prover_data));
+                                        if after.is_some() && after != before {
+                                            // the call (re)populated the slot: from now on it belongs to this pair
+                                            slots[*s].for_circuit = Some(pair_id);
+                                        }
+                                        (twin, Some(c), stale && had)
+                                    }
+                                }
+                            })
+                        })
+                    })
+                })
+            }
+
+            /// Execute a history; violations are pushed into `out`. `only_step` restricts the oracle to one step (replay).
+            pub fn run_history(h: &HistorySpec, out: &mut RunOut) {
+                let cfg = Cfg::new(h.fri);
+                let p = params(&h.fri);
+                let mut pool: Vec<Item> = Vec::new();
+                for (kind, log_n) in &h.base {
+                    let item = observe(|| match kind.as_str() {
+                        "fib" => {
+                            let n = 1usize << log_n;
+                            let trace = generate_trace_rows::<F>(0, 1, n);
+                            let (mut a, mut b) = (F::ZERO, F::ONE);
+                            for _ in 1..n {
+                                let c = a + b;
+                                a = b;
+                                b = c;
+                            }
+                            let pis = vec![F::ZERO, F::ONE, b];
+                            let proof = p3_uni_stark::prove(&cfg, &FibonacciAir {}, trace, &pis);
+                            Item::Fib(proof, pis)
+                        }
+                        k => {
+                            let air = PairAir { variant: if k == "pair0" { 0 } else { 1 } };
+                            let proof = p3_uni_stark::prove(&cfg, &air, air.trace(*log_n, h.seed), &[]);
+                            Item::Pair(proof, air)
+                        }
+                    });
+                    match item {
+                        Ok(i) => pool.push(i),
+                        Err(_) => {
+                            out.count("base_proof_failed_history_skipped");
+                            return;
+                        }
+                    }
+                }
+                let mut next_slots: Vec<Option<NextSlot>> = Vec::new();
+                let mut agg_slots: Vec<AggSlot> = Vec::new();
+                let mut stale_seen = false;
+                for (si, step) in h.steps.iter().enumerate() {
+                    out.evals += 1;
+                    out.steps += 1;
+                    let detail = json!({"history": h, "step": si});
+                    let (twin, cached, stale, what, counters) = match step {
+                        Step::Next(i, mode) => {
+                            if *i >= pool.len() {
+                                continue;
+                            }
+                            let (t, c, s, _dig, counters) = do_next(&cfg, &p, &pool[*i], mode, &mut next_slots);
+                            (t, c, s, "next", counters)
+                        }
+                        Step::Agg(i, j, mode) => {
+                            if *i >= pool.len() || *j >= pool.len() {
+                                continue;
+                            }
+                            let (t, c, s) = do_agg(&cfg, &p, &pool[*i], &pool[*j], mode, &mut agg_slots, (*i, *j));
+                            (t, c, s, "agg", (0, 0))
+                        }
+                    };
+                    let _ = counters;
+                    out.count(&format!("step_{what}"));
+                    // uncached twin: must succeed and verify (chaining), whatever happened before
+                    let twin_out = match twin {
+                        CallOut::Ok(o) => match native_verify(&cfg, &p, &o) {
+                            Ok(()) => Some(o),
+                            Err(e) => {
+                                out.violate(format!("uncached_{what}_does_not_verify"), format!("step {si} ({step:?}): uncached layer proof rejected natively: {e}"), detail.clone());
+                                None
+                            }
+                        },
+                        CallOut::Err(e) => {
+                            out.violate(format!("uncached_{what}_failed:{}", e.split(|c: char| !c.is_alphanumeric()).find(|x| !x.is_empty()).unwrap_or("err")), format!("step {si} ({step:?}): uncached call failed: {}", e.chars().take(300).collect::<String>()), detail.clone());
+                            None
+                        }
+                        CallOut::Panic(e) => {
+                            out.violate(format!("uncached_{what}_panicked"), format!("step {si} ({step:?}): uncached call panicked: {}", e.chars().take(300).collect::<String>()), detail.clone());
+                            None
+                        }
+                    };
+                    if stale_seen && twin_out.is_some() {
+                        out.count("progress_after_stale_offer");
+                    }
+                    // cached call vs twin
+                    if let Some(c) = cached {
+                        out.count(if stale { "cache_stale_offer" } else { "cache_valid_use" });
+                        if stale {
+                            stale_seen = true;
+                        }
+                        out.distinct.insert(crate::core::prng::fnv64(format!("{what}:{}:{stale}", match step { Step::Next(_, m) | Step::Agg(_, _, m) => format!("{m:?}").split('(').next().unwrap_or("").to_string() }).as_bytes()));
+                        let kind = if stale { "stale" } else { "valid" };
+                        match c {
+                            CallOut::Ok(o) => match native_verify(&cfg, &p, &o) {
+                                Ok(()) => {
+                                    out.count(&format!("{kind}_cache_output_verifies"));
+                                    // "refused or recomputed": a proof made through a stale cache must carry the
+                                    // verifying data of the circuit actually proven (= the uncached twin's)
+                                    if let Some(t) = &twin_out {
+                                        let commit = |x: &RecursionOutput<Cfg>| {
+                                            let mut v = Vec::new();
+                                            if let Some(g) = x.0.stark_common.preprocessed.as_ref() {
+                                                crate::tree::collect_numbers(&serde_json::to_value(&g.commitment).unwrap(), &mut v);
+                                            }
+                                            v
+                                        };
+                                        if commit(&o) != commit(t) {
+                                            out.violate(
+                                                format!("{kind}_{what}_cache_used_silently"),
+                                                format!("step {si} ({step:?}): the call accepted a cache prepared for a different circuit: its proof verifies against the OTHER circuit's preprocessed commitment (neither refused nor recomputed)"),
+                                                detail.clone(),
+                                            );
+                                        } else if stale {
+                                            out.count("stale_cache_recomputed");
+                                        }
+                                    }
+                                }
+                                Err(e) => {
+                                    if twin_out.is_some() {
+                                        out.violate(
+                                            format!("{kind}_{what}_cache_unverifiable_proof"),
+                                            format!("step {si} ({step:?}): call with a {kind} cache returned a proof that does not verify ({}), while the uncached call verifies", e.chars().take(200).collect::<String>()),
+                                            detail.clone(),
+                                        );
+                                    }
+                                }
+                            },
+                            CallOut::Err(e) => {
+                                if stale {
+                                    out.count("stale_cache_refused");
+                                } else if twin_out.is_some() {
+                                    out.violate(format!("valid_{what}_cache_call_failed"), format!("step {si} ({step:?}): call with a cache prepared for this very circuit failed: {}", e.chars().take(200).collect::<String>()), detail.clone());
+                                }
+                            }
+                            CallOut::Panic(e) => {
+                                out.violate(format!("{kind}_{what}_cache_panics"), format!("step {si} ({step:?}): call with a {kind} cache panicked instead of refusing or recomputing: {}", e.chars().take(200).collect::<String>()), detail.clone());
                             }
                         }
                     }
-                    Err(e) => {
-                        if twin_out.is_some() {
-                            out.violate(
-                                format!("{kind}_{what}_cache_unverifiable_proof"),
-                                format!("step {si} ({step:?}): call with a {kind} cache returned a proof that does not verify ({}), while the uncached call verifies", e.chars().take(200).collect::<String>()),
-                                detail.clone(),
-                            );
-                        }
-                    }
-                },
-                CallOut::Err(e) => {
-                    if stale {
-                        out.count("stale_cache_refused");
-                    } else if twin_out.is_some() {
-                        out.violate(format!("valid_{what}_cache_call_failed"), format!("step {si} ({step:?}): call with a cache prepared for this very circuit failed: {}", e.chars().take(200).collect::<String>()), detail.clone());
+                    match twin_out {
+                        Some(o) => pool.push(Item::Batch(o)),
+                        None => return,
                     }
                 }
-                CallOut::Panic(e) => {
-                    out.violate(format!("{kind}_{what}_cache_panics"), format!("step {si} ({step:?}): call with a {kind} cache panicked instead of refusing or recomputing: {}", e.chars().take(200).collect::<String>()), detail.clone());
-                }
+                let _ = Rc::new(());
             }
+
         }
-        match twin_out {
-            Some(o) => pool.push(Item::Batch(o)),
-            None => return,
-        }
-    }
-    let _ = Rc::new(());
+    };
+}
+c17_universe!(kb4, kb, koala_bear_params, 4, 16, 8, Poseidon2Config::KOALA_BEAR_D4_W16);
+c17_universe!(gl2, gl, goldilocks_params, 2, 8, 4, Poseidon2Config::GOLDILOCKS_D2_W8);
+
+/// Execute a history in the universe it names.
+pub fn run_history(h: &HistorySpec, out: &mut RunOut) {
+    if h.universe == "GL2" { gl2::run_history(h, out) } else { kb4::run_history(h, out) }
 }
 
 pub fn one_run(ctx: &Ctx, idx: u64, out: &mut RunOut) {
     let mut rng = Rng::new(ctx.seed, "C17", idx);
     foldhash::sim::set_seed(mix(ctx.seed, idx));
-    let h = gen_history(&mut rng, ctx.tier.pick(6, 9));
+    let mut h = gen_history(&mut rng, ctx.tier.pick(6, 9));
+    // one run in four over Goldilocks with the degree-2 backend
+    h.universe = if idx % 4 == 3 { "GL2".into() } else { "KB4".into() };
     if out.samples.is_empty() {
         out.samples.push(json!({"history": h}));
     }
+    out.count(&format!("histories_{}", h.universe));
     run_history(&h, out);
 }
 
